@@ -274,6 +274,13 @@ void RelayServer::handle_register(const std::shared_ptr<ClientSession>& session,
         return;
     }
 
+    if (!session->partner.expired()) {
+        // Already claimed by a connector that is about to send its identity: registering
+        // again would make this peer claimable a second time while the first link exists.
+        queue_text(session, "ERROR busy\n");
+        return;
+    }
+
     remove_registration(session);
     session->peer_id = *peer;
     session->peer_hex = peer_id_to_string(session->peer_id);
